@@ -15,7 +15,7 @@ cd /verif
 confirm=0
 if [ "$1" = "--confirm" ]; then confirm=1; shift; fi
 ids="$@"
-[ -z "$ids" ] && ids=$(ls seeded | sort)
+[ -z "$ids" ] && ids=$(cd seeded && ls -d */ | tr -d / | sort)
 if [ -n "$(git -C /repo status --porcelain)" ]; then echo "/repo working tree is not clean"; exit 2; fi
 trap 'git -C /repo checkout -- . 2>/dev/null' EXIT
 missed=0
